@@ -32,17 +32,45 @@ def rule(tier):
             "interface unused; distinct by digest of sources + used set")
 
 
-def build_app(d, lib, prog, used, name="app", instantiate=()):
+def build_app(d, lib, prog, used, name="app", instantiate=(), mode="nopie", pic_part=()):
+    """mode nopie: position-dependent executable (library variables are reached through copy relocations: the symbols are
+    *defined* in the application); pie: -fPIE -pie (variables through the GOT: undefined symbols); mixed: the references in
+    `pic_part` live in a second, -fPIC compiled file of a position-dependent executable, so the application has defined
+    (copy-relocated) and undefined variable symbols side by side."""
     src = os.path.join(d, name + ".c")
+    first = [n for n in used if not (mode == "mixed" and n in pic_part)]
+    second = [n for n in used if mode == "mixed" and n in pic_part]
     with open(src, "w") as fh:
         fh.write('#include "a/private.h"\n')
-        fh.write("void *verif_refs[] = { %s };\n" % ", ".join("(void*)&%s" % n for n in used))
+        if mode == "pie":
+            fh.write("void *verif_refs[] = { %s };\n" % ", ".join(["(void*)&%s" % n for n in first] + ["(void*)0"]))
+        else:
+            # references from *code* of a position-dependent executable: the linker answers with copy relocations for variables
+            fh.write("void *verif_get(int i)\n{\n  switch (i) {\n%s  }\n  return 0;\n}\n"
+                     % "".join("  case %d: return (void*)&%s;\n" % (k, n) for k, n in enumerate(first)))
+            fh.write("void *verif_refs[1];\n")
         # the application's own view of some types (weak mode compares what it expects with what the library provides)
         for k, spec in enumerate(instantiate):
             fh.write("%s verif_instance_%d;\n" % (spec, k))
-        fh.write("int main(void) { return verif_refs[0] == 0; }\n")
+        fh.write("extern void *verif_refs2[];\n" if second else "")
+        fh.write("int main(void) { return verif_refs[0] == %s; }\n" % ("verif_refs2[0]" if second else "0"))
     out = os.path.join(d, name)
-    rr = subprocess.run(["gcc", "-g", "-w", "-O0", "-fno-pie", "-no-pie", "-o", out, src, "-I", d, lib, "-Wl,-rpath," + os.path.dirname(lib)],
+    objs = []
+    flags = ["-fPIE"] if mode == "pie" else ["-fno-pie"]
+    jobs = [(src, flags)]
+    if second:
+        src2 = os.path.join(d, name + "2.c")
+        with open(src2, "w") as fh:
+            fh.write('#include "a/private.h"\n')
+            fh.write("void *verif_refs2[] = { %s };\n" % ", ".join("(void*)&%s" % n for n in second))
+        jobs.append((src2, ["-fPIC"]))
+    for sfile, fl in jobs:
+        o = sfile[:-2] + ".o"
+        rr = subprocess.run(["gcc", "-g", "-w", "-O0"] + fl + ["-c", "-o", o, sfile, "-I", d], cwd=d, stdout=subprocess.PIPE, stderr=subprocess.STDOUT)
+        if rr.returncode != 0:
+            raise cc.CompileError(rr.stdout.decode(errors="replace")[-400:])
+        objs.append(o)
+    rr = subprocess.run(["gcc", "-pie" if mode == "pie" else "-no-pie", "-o", out] + objs + [lib, "-Wl,-rpath," + os.path.dirname(lib)],
                         cwd=d, stdout=subprocess.PIPE, stderr=subprocess.STDOUT)
     if rr.returncode != 0:
         raise cc.CompileError(rr.stdout.decode(errors="replace")[-400:])
@@ -54,16 +82,21 @@ def case(ctx, i):
     r = core.CaseResult()
     d = ctx.casedir(i)
     want_used = (i % 2 == 0)
+    var_focus = (i % 3 == 0)        # every third case: many variables, mutations aimed at variables
     p = q = e = None
     U = None
     for attempt in range(10):
-        p = progen.generate(rng, wl.gen_opts(rng, ctx.tier, nfuncs=rng.randint(4, 9), nvars=rng.randint(1, 4)))
+        p = progen.generate(rng, wl.gen_opts(rng, ctx.tier, nfuncs=rng.randint(4, 9), nvars=rng.randint(3, 7) if var_focus else rng.randint(1, 4)))
         ifaces = [x.name for x in p.exported_functions() + p.exported_variables()]
         if len(ifaces) < 3:
             continue
         U = set(rng.sample(ifaces, rng.randint(1, len(ifaces) - 1)))
+        if var_focus and rng.random() < 0.6:
+            U |= {v.name for v in p.exported_variables()}
+            if len(U) == len(ifaces):
+                U.discard(rng.choice([f.name for f in p.exported_functions()] or sorted(U)))
         for k in range(30):
-            kind = rng.choice(SIG + TYPEM)
+            kind = rng.choice(["remove-variable", "remove-variable"] + TYPEM if var_focus else SIG + TYPEM)
             res = mutate.BREAKING[kind](p, rng)
             if not res:
                 continue
@@ -97,11 +130,19 @@ def case(ctx, i):
             rec = p.find_type(e.type_name.split(":", 1)[1])
             if rec is not None and not getattr(rec, "flex", False):
                 inst = [rec.spec()]
-        app = build_app(d, a, p, sorted(U), instantiate=inst)
+        mode = rng.choice(["nopie", "nopie", "pie", "mixed", "mixed"] if not var_focus else ["mixed", "mixed", "mixed", "nopie", "pie"])
+        pic_part = set(x for x in sorted(U) if rng.random() < 0.5)
+        if var_focus and want_used and rng.random() < 0.6:
+            # the mutated variable through a copy relocation, every other used variable through the GOT (and the other way round)
+            vnames = {v.name for v in p.exported_variables()}
+            mine = set(e.affected) & vnames
+            others = (U & vnames) - mine
+            pic_part = (pic_part - mine) | others if rng.random() < 0.7 else (pic_part | mine) - others
+        app = build_app(d, a, p, sorted(U), instantiate=inst, mode=mode, pic_part=pic_part)
     except cc.CompileError as ex:
         return r.skip("compile-error:" + str(ex)[-200:])
-    what = "%s on %s (%s interface); app uses %d of %d; %s" % (e.kind, e.affected[:2], "used" if want_used else "unused", len(U),
-                                                              len(p.exported_functions() + p.exported_variables()), wl.describe_cfg(cfg))
+    what = "%s on %s (%s interface); app (%s) uses %d of %d; %s" % (e.kind, e.affected[:2], "used" if want_used else "unused", mode, len(U),
+                                                                   len(p.exported_functions() + p.exported_variables()), wl.describe_cfg(cfg))
     base = wl.tool_run(ctx, "abicompat", [app, a, a], d)
     res = wl.tool_run(ctx, "abicompat", [app, a, b], d)
     for x in (base, res):
